@@ -1,6 +1,8 @@
 (** C01 — evaluation never corrupts memory; errors stay contained: property theorems only. *)
 From ChibiV Require Import Common.Words C01.Model C01.Proofs C01.TableProofs C01.Prims C01.PrimProofs
-  C01.StackProofs C01.ConstProofs C01.Spec C01.SpecProofs Gen.C01_VmGuards Gen.C01_Stack Gen.C01_Consts.
+  C01.StackProofs C01.ConstProofs C01.Spec C01.SpecProofs Gen.C01_VmGuards Gen.C01_Stack Gen.C01_Consts
+  C01.Recursion C01.RecursionProofs C01.RecursionGenProofs Gen.C01_Recursion.
+From Coq Require Import List ZArith.
 Local Open Scope Z_scope.
 
 (** ** part 1: opcode guards *)
@@ -125,3 +127,48 @@ Theorem pinned_grow_insufficient :
     pinned_ensure_stack MAX len top n = Some l /\ l <= top + n.
 Proof. exact pinned_grow_insufficient_proof. Qed.
 Print Assumptions pinned_grow_insufficient.
+
+(** ** part 4 (round 2): depth-bounded C recursion on data *)
+
+(** for ANY table of call sites that pass bound+1 and ANY data (any sequence of sites a C stack of nested
+    sexp_write_one activations goes through): at most WB+3 activations *)
+Theorem write_depth_bounded : forall WB (table p : list site) f',
+  forallb site_ok table = true -> (forall s, In s p -> In s table) ->
+  run WB (Bounded 0) p = Some f' -> (length p <= WB + 3)%nat.
+Proof. exact write_depth_bounded_proof. Qed.
+Print Assumptions write_depth_bounded.
+
+(** generated obligation: the call sites of sexp_write_one in THIS sexp.c (clang AST) all pass bound+1 *)
+Theorem write_sites_pass_bound : forallb site_ok (map snd write_sites) = true /\ (7 <= length write_sites)%nat.
+Proof. exact write_sites_pass_bound_proof. Qed.
+Print Assumptions write_sites_pass_bound.
+
+Theorem write_recursion_bounded : forall (p : list site) f',
+  (forall s, In s p -> In s (map snd write_sites)) ->
+  run (Z.to_nat write_bound) (Bounded 0) p = Some f' ->
+  Z.of_nat (length p) <= write_bound + 3.
+Proof. exact write_recursion_bounded_proof. Qed.
+Print Assumptions write_recursion_bounded.
+
+(** one site that keeps its bound (the seeded elts[0] change), or restarts it on an arbitrary object (the
+    pinned SEXP_SYNCLO case, repaired), and the recursion is unbounded: witnesses of every length *)
+Theorem write_depth_unbounded_if_a_site_keeps_bound : forall WB n, (0 < WB)%nat ->
+  run WB (Bounded 0) (repeat (Rec 0) n) = Some (Bounded 0).
+Proof. exact write_depth_unbounded_if_a_site_keeps_bound_proof. Qed.
+Print Assumptions write_depth_unbounded_if_a_site_keeps_bound.
+
+Theorem write_depth_unbounded_if_a_site_resets : forall WB n,
+  run WB (Bounded 0) (repeat (Reset OtherObj) n) = Some (Bounded 0).
+Proof. exact write_depth_unbounded_if_a_site_resets_proof. Qed.
+Print Assumptions write_depth_unbounded_if_a_site_resets.
+
+(** generated obligations: equal? / strip-syntactic-closures pass depth-1; analyzer call graph *)
+Theorem equal_strip_sites_pass_bound :
+  forallb site_ok (map snd equal_sites) = true /\ (1 <= length equal_sites)%nat /\
+  forallb site_ok (map snd strip_sites) = true /\ (6 <= length strip_sites)%nat.
+Proof. exact equal_strip_sites_pass_bound_proof. Qed.
+Print Assumptions equal_strip_sites_pass_bound.
+
+Theorem analyze_cycles_increment_depth : graph_ok analyze_nfun analyze_edges = true /\ (25 <= length analyze_edges)%nat.
+Proof. exact analyze_cycles_increment_depth_proof. Qed.
+Print Assumptions analyze_cycles_increment_depth.
